@@ -585,25 +585,17 @@ func runHistories(r *ev.Run) {
 			seen := map[string]bool{}
 			var mu sync.Mutex
 			vdepth := depth
-			if prop == "C10" && !r.Thorough() && opts.CommonPool >= 60 && opts.CommonPool <= 160 && !opts.Runtime {
-				// common-pool sweep: what matters is which rewards meet the depleted pool at the epoch
-				// transitions, which the timelines cover; histories of depth 1 only
-				vdepth = 1
-			}
-			if (prop == "C05" || prop == "C15") && !r.Thorough() && (opts.Runtime && opts.MinTransactBalance > 0 || opts.SlashAmount > 1000 || opts.CommonPool > 0 && opts.CommonPool < 1000 || opts.GovMetadata || len(opts.Prefix) > 0 && opts.Prefix[0] == "escrow(e1->e0,400)") {
-				// quick tier: these worlds exist for one mechanism each (a credit failing on the destination side, a
-				// penalty that takes everything while delegations debond, rewards meeting a depleted pool, proposals
-				// with metadata, chained escrows released in one block), which single letters and the timelines reach
+			if (prop == "C05" || prop == "C15") && !r.Thorough() && (opts.CommonPool > 0 && opts.CommonPool < 1000 || opts.GovMetadata) {
+				// quick tier: these worlds exist for one mechanism each (rewards meeting a depleted pool, proposals
+				// with metadata), which single letters and the timelines reach
 				vdepth = 1
 			}
 			if prop == "C01" && !r.Thorough() && opts.Focus != "" {
 				vdepth = 1
 			}
-			if prop == "C10" && !r.Thorough() && opts.Runtime && (len(opts.NodeExpirations) > 0 && opts.RtBackupSize > 0 || opts.RtMaxInMessages > 1 || opts.EpochInterval >= 10) {
-				// quick tier: of the five runtime worlds two are searched to depth 2 (a node expiring in a committee of
-				// three; all nodes staying with the owner able to fall below its claims); the others (backup workers with
-				// debonding interval 2, a bigger message queue, long epochs with a short round timeout) to depth 1 plus
-				// their timelines with empty-block and finalized-round fillers
+			if prop == "C10" && !r.Thorough() && opts.Runtime && opts.EpochInterval >= 10 {
+				// quick tier: the world with long epochs and a short round timeout (20 warm-up blocks per history) to
+				// depth 1 plus its timelines with empty-block and finalized-round fillers
 				vdepth = 1
 			}
 			for level := 1; level <= vdepth && len(frontier) > 0; level++ {
